@@ -190,6 +190,27 @@ def expected_cues(doc, spec, per_region):
   return out, sig
 
 
+def resolve_sub_ms(exp):
+  """(cues that must be written, number of cues that cannot be written, ambiguous): a cue whose begin and end round to the same
+  millisecond has no SRT / WebVTT representation (begin < end is required) and is left out; one that is shorter than a millisecond
+  but crosses a rounding boundary is written with a duration of 1 ms.  Ambiguous = an end point sits exactly on a half millisecond
+  and one of its two roundings would make the cue empty."""
+  keep, dropped, ambiguous = [], 0, False
+  for c in exp:
+    if c.unbounded:
+      keep.append(c)
+      continue
+    b, e = round_ms(c.begin), round_ms(c.end)
+    if b & e:
+      if len(b) == 1 and len(e) == 1:
+        dropped += 1
+      else:
+        ambiguous = True
+      continue
+    keep.append(c)
+  return keep, dropped, ambiguous
+
+
 def tokens_of(text):
   return re.findall(r"w\d+", text)
 
